@@ -2,7 +2,7 @@
     This file holds only the exported statements (each closed by [exact]). *)
 From Coq Require Import List Bool Arith.
 Import ListNotations.
-Require Import Nib.C16.Model Nib.C16.Spec Nib.C16.Proofs.
+Require Import Nib.C16.Model Nib.C16.Spec Nib.C16.Proofs Nib.C16.Spelled Nib.C16.ProofsSpelled.
 
 (** Only the current root edits the sudoers — handler form: a successful MsgEditSudoers /
     MsgChangeRoot was sent by the root in force when it ran. *)
@@ -159,3 +159,89 @@ Print Assumptions C16_model_satisfies_property.
 Theorem C16_checker_sound : forall cf t cr cc, Pb cf cr cc t = true -> P cf cr cc t.
 Proof. exact Pb_sound. Qed.
 Print Assumptions C16_checker_sound.
+
+(** ADDRESS SPELLINGS.  The sender / new_root / contracts fields of the privileged messages are bech32
+    strings with two accepted spellings (lower case = canonical, upper case).  [sdeliver] = decode every
+    string to the identity it names, then the identity-keyed model above.  Outcomes do not depend on the
+    spelling: two txs naming the same identities in accepted spellings are delivered alike from every
+    state … *)
+Theorem C16_outcome_independent_of_spelling :
+  forall cf s a b, same_ids a b -> forallb spelled_ok a = true -> forallb spelled_ok b = true ->
+  sdeliver cf s a = sdeliver cf s b.
+Proof. exact spelling_irrelevant. Qed.
+Print Assumptions C16_outcome_independent_of_spelling.
+
+(** … and so are whole histories (same verdicts, same final sudoers and stores). *)
+Theorem C16_history_independent_of_spelling :
+  forall cf h1 h2 s,
+  Forall2 (fun a b => same_ids a b /\ forallb spelled_ok a = true /\ forallb spelled_ok b = true) h1 h2 ->
+  srun_history cf s h1 = srun_history cf s h2.
+Proof. exact spelling_irrelevant_history. Qed.
+Print Assumptions C16_history_independent_of_spelling.
+
+(** A string that does not decode (mixed case, …), anywhere in the message tree, refuses the tx. *)
+Theorem C16_undecodable_address_refuses_tx :
+  forall cf s stx, forallb spelled_ok stx = false -> sdeliver cf s stx = (s, false).
+Proof. exact bad_spelling_rejected. Qed.
+Print Assumptions C16_undecodable_address_refuses_tx.
+
+(** Whatever is accepted as written is accepted as the identities it names, so every theorem above
+    about [deliver] speaks about txs as written. *)
+Theorem C16_accepted_as_written_is_accepted_by_identity :
+  forall cf s stx s', sdeliver cf s stx = (s', true) ->
+  forallb spelled_ok stx = true /\ deliver cf s (map ids stx) = (s', true).
+Proof. exact sdeliver_accepts_by_identity. Qed.
+Print Assumptions C16_accepted_as_written_is_accepted_by_identity.
+
+(** A sudoers store keyed by the RAW strings of the messages (ChangeRoot stores msg.NewRoot as given,
+    RemoveContracts removes the entry as given, the root test of EditSudoers compares strings — the
+    switches Gen/C16Facts.v reads off x/sudo/keeper) does NOT have the property: (a) an accepted removal
+    in upper case removes nothing and the contract stays permitted, (b) after an accepted hand-over to an
+    upper-case new root that root is refused by every gated operation, (c) the root spelled in upper case
+    cannot edit; the lower-case twins behave. *)
+Theorem C16_raw_string_store_refuted :
+  snd (raw_run tree_rawcfg raw0 [SEdit Remove (L 0) [U 1] true; SGated GOracle (L 1) true]) = [true; true] /\
+  snd (raw_run tree_rawcfg raw0 [SEdit Remove (L 0) [L 1] true; SGated GOracle (L 1) true]) = [true; false] /\
+  snd (raw_run tree_rawcfg raw0 [SRoot (L 0) (U 2); SGated GOracle (L 2) true; SGated GOracle (U 2) true]) = [true; false; false] /\
+  snd (raw_run tree_rawcfg raw0 [SRoot (L 0) (L 2); SGated GOracle (L 2) true; SGated GOracle (U 2) true]) = [true; true; true] /\
+  snd (raw_run tree_rawcfg raw0 [SEdit Add (U 0) [L 3] true]) = [false] /\
+  snd (raw_run tree_rawcfg raw0 [SEdit Add (L 0) [L 3] true]) = [true].
+Proof. exact raw_string_store_refuted. Qed.
+Print Assumptions C16_raw_string_store_refuted.
+
+Theorem C16_raw_string_store_each_switch_needed :
+  snd (raw_run {| rw_root := true; rw_remove := false; rw_sender := true |} raw0
+         [SEdit Remove (L 0) [U 1] true; SGated GOracle (L 1) true]) = [true; true] /\
+  snd (raw_run {| rw_root := false; rw_remove := true; rw_sender := true |} raw0
+         [SRoot (L 0) (U 2); SGated GOracle (L 2) true]) = [true; false] /\
+  snd (raw_run {| rw_root := true; rw_remove := true; rw_sender := false |} raw0
+         [SEdit Add (U 0) [L 3] true]) = [false].
+Proof. exact raw_string_store_each_switch_needed. Qed.
+Print Assumptions C16_raw_string_store_each_switch_needed.
+
+(** A string store that writes the String() of the parsed address and compares parsed addresses
+    simulates the identity-keyed model, handler call by handler call, for every accepted spelling of
+    every field, from every related pair of states — hence its verdicts do not depend on spellings. *)
+Theorem C16_canonical_store_simulates_identity_model :
+  forall l s rs, Rel s rs -> forallb spelled_ok l = true ->
+  snd (raw_run canon_rawcfg rs l) = snd (id_run s (map ids l)) /\
+  Rel (fst (id_run s (map ids l))) (fst (raw_run canon_rawcfg rs l)).
+Proof. exact canon_store_simulates. Qed.
+Print Assumptions C16_canonical_store_simulates_identity_model.
+
+Theorem C16_canonical_store_independent_of_spelling :
+  forall s rs l1 l2, Rel s rs -> map ids l1 = map ids l2 ->
+  forallb spelled_ok l1 = true -> forallb spelled_ok l2 = true ->
+  snd (raw_run canon_rawcfg rs l1) = snd (raw_run canon_rawcfg rs l2).
+Proof. exact canon_store_spelling_irrelevant. Qed.
+Print Assumptions C16_canonical_store_independent_of_spelling.
+
+(** The trace property on txs as written, and its checker (the one run on implementation traces). *)
+Theorem C16_spelled_model_satisfies_property :
+  forall cf, c_wguard cf = true -> forall h s, sP cf (root s) (contracts s) (smodel_trace cf s h).
+Proof. exact model_satisfies_sP. Qed.
+Print Assumptions C16_spelled_model_satisfies_property.
+
+Theorem C16_spelled_checker_sound : forall cf t cr cc, sPb cf cr cc t = true -> sP cf cr cc t.
+Proof. exact sPb_sound. Qed.
+Print Assumptions C16_spelled_checker_sound.
